@@ -35,5 +35,8 @@ CHECK = {
         "udp": {"pkg": "server", "run": "TestVerifC11UDP", "harness": _SRV_H,
                 "rewrite": _SRV_RW, "gomaxprocs": 2,
                 "budget_s": {"quick": 60, "thorough": 200}},
+        "lookup": {"pkg": "middleware/resolver", "run": "TestVerifC11Lookup",
+                   "harness": {"middleware/resolver": ["zz_verif_c11lk_*_test.go"]}, "gomaxprocs": 2,
+                   "budget_s": {"quick": 40, "thorough": 420}},
     },
 }
